@@ -6,6 +6,7 @@ package simapp
 // plus naturally occurring failures on the FULL application from every state of an E1 prefix.
 
 import (
+	storetypes "cosmossdk.io/store/types"
 	"fmt"
 	"sort"
 	"strings"
@@ -346,6 +347,7 @@ func checkC03(tier string) *Report {
 
 	// ---------------- natural failures on the FULL application
 	c03Natural(rep, worlds, full)
+	c03GasAborts(rep, worlds, full)
 	rep.Guard(rep.Outcomes["error-ack"] > 100, "too few error acks: %v", rep.Outcomes)
 
 	// ---------------- the REAL envelopes (loop.go): signed transactions through baseapp, packets through IBC core's own
@@ -510,4 +512,113 @@ func classifyRefusal(e string) string {
 		e = "…" + e[len(e)-90:]
 	}
 	return "other:" + e
+}
+
+// ---------------------------------------------------------------------------- gas exhaustion = abort points
+//
+// Running out of gas is the one failure the middleware does NOT turn into an acknowledgement: it re-raises the panic so
+// that the transaction aborts (and everything it wrote is discarded). Every point at which the gas meter is charged is
+// therefore a point at which the handling of a packet can be cut off — a crash point. The phase enumerates ALL of them
+// for each payload shape: a recording meter lists the cumulative charge after every ConsumeGas of an unlimited run; for
+// each value g the packet is delivered with a limit of g-1 (cut off exactly there) on a branch that is discarded; then
+// the same packet is delivered, with unlimited gas, to a fresh branch of the committed state. Required: a cut-off run
+// ends in the out-of-gas panic or in exactly the unlimited answer (never in another acknowledgement that commits
+// something), and the delivery AFTER the abort is identical — acknowledgement and whole-ledger delta — to the delivery
+// on an instance that never saw an abort: nothing may survive the abort, in the stores or outside them (seed C01i).
+
+type recordingGasMeter struct {
+	storetypes.GasMeter
+	points []uint64
+}
+
+func (m *recordingGasMeter) ConsumeGas(amount storetypes.Gas, descriptor string) {
+	m.GasMeter.ConsumeGas(amount, descriptor)
+	if n := len(m.points); amount > 0 && (n == 0 || m.points[n-1] != m.GasMeter.GasConsumed()) {
+		m.points = append(m.points, m.GasMeter.GasConsumed())
+	}
+}
+
+func c03GasAborts(rep *Report, worlds []*World, full bool) {
+	w0 := worlds[0]
+	orb := w0.Orb.String()
+	fee1 := []FeeSpec{{To: w0.Fee1.String(), Bps: 100}}
+	shapes := []TransferSpec{
+		{"channel-0", denomUSDC, "10000", orb, w0.FwdInternal(w0.Bob), nil},
+		{"channel-0", denomUSDC, "10000", orb, w0.FwdInternal(w0.Bob), fee1},
+		{"channel-0", denomUSDC, "10000", orb, w0.FwdCCTP(0), fee1},
+		{"channel-0", denomUSDC, "10000", orb, w0.FwdHyp(1), fee1},
+	}
+	if full {
+		shapes = append(shapes, TransferSpec{"channel-1", denomUSDC, "10000", orb, w0.FwdCCTPCaller(1), nil},
+			TransferSpec{"channel-0", denomUSDC, "10000", orb, w0.FwdHyp(1), nil},
+			TransferSpec{"channel-0", denomUSDC, "10000", orb, w0.FwdInternal(w0.Bob), w0.feeMenu()[2]},
+			TransferSpec{"channel-0", denomUSDC, fmt.Sprint(burnLimit + 1), orb, w0.FwdCCTP(0), nil}) // refused late
+	}
+	type job struct {
+		shape int
+		limit uint64
+	}
+	var jobs []job
+	refs := make([]struct {
+		ack   string
+		delta string
+		ok    bool
+	}, len(shapes))
+	deliver := func(w *World, pkt Pkt) (RecvResult, string) {
+		b := Branch(w.Ctx)
+		before := w.Snapshot(b)
+		r := w.Recv(b, pkt)
+		bal, sup := LedgerDelta(before, w.Snapshot(b))
+		return r, bal.String() + sup.String()
+	}
+	for si, sp := range shapes {
+		pkt := sp.Pkt()
+		b := Branch(w0.Ctx)
+		m := &recordingGasMeter{GasMeter: storetypes.NewInfiniteGasMeter()}
+		r := w0.Recv(b.WithGasMeter(m), pkt)
+		if r.Panic != "" {
+			rep.HarnessError("gas phase: reference run of %s panicked: %s", sp.Label(), r.Panic)
+			return
+		}
+		r0, d0 := deliver(w0, pkt)
+		refs[si].ack, refs[si].delta, refs[si].ok = string(r0.Ack), d0, r0.Success
+		for _, g := range m.points {
+			jobs = append(jobs, job{si, g - 1})
+		}
+		rep.Extra[fmt.Sprintf("gas_abort_points:%s", sp.Label())] = len(m.points)
+	}
+	parallelFor(worlds, len(jobs), func(w *World, i int) {
+		j := jobs[i]
+		sp := shapes[j.shape]
+		pkt := sp.Pkt()
+		sig := fmt.Sprintf("gas limit %d on %s", j.limit, sp.Label())
+		replay := mustJSON(map[string]any{"ops": []Op{{Label: sp.Label(), Pkt: &pkt}}, "gas_limit_of_the_aborted_delivery": j.limit, "then": "the same packet with unlimited gas"})
+		cut := w.Recv(Branch(w.Ctx).WithGasMeter(storetypes.NewGasMeter(j.limit)), pkt)
+		rep.Count("evaluations", 1)
+		rep.Count("gas_abort_points_executed", 1)
+		switch {
+		case cut.Panic != "" && (strings.HasSuffix(cut.PanicType, ".ErrorOutOfGas") || strings.HasSuffix(cut.PanicType, ".ErrorGasOverflow")):
+			rep.Outcome("cut-off-by-gas(transaction aborts)")
+		case cut.Panic != "":
+			rep.Violate(Violation{Kind: "panic", Group: "gas " + sp.Label(), Sig: sig, Replay: replay, What: "a delivery cut off by its gas limit ended in another panic than out-of-gas: " + cut.Panic + " [" + sig + "]"})
+		case string(cut.Ack) == refs[j.shape].ack:
+			rep.Outcome("completed-within-the-limit")
+		default:
+			// an acknowledgement other than the unlimited run's although the meter is exhausted: the exhaustion was swallowed
+			rep.Violate(Violation{Kind: "gas-exhaustion-swallowed", Group: "gas " + sp.Label(), Sig: sig, Replay: replay,
+				What: fmt.Sprintf("a delivery that ran out of gas was answered with the acknowledgement %s instead of aborting (unlimited run: %s) [%s]", trunc(string(cut.Ack), 160), trunc(refs[j.shape].ack, 120), sig)})
+		}
+		// the delivery after the abort, on the committed state
+		after, d := deliver(w, pkt)
+		rep.Count("evaluations", 1)
+		if after.Panic != "" || string(after.Ack) != refs[j.shape].ack || d != refs[j.shape].delta {
+			rep.Violate(Violation{Kind: "delivery-after-an-aborted-delivery-differs", Group: "gas " + sp.Label(), Sig: sig, Replay: replay,
+				What: fmt.Sprintf("after a delivery of the same packet was cut off by its gas limit (everything it wrote discarded), the packet is handled differently from an instance that never saw the abort: ack %s (panic %q), ledger delta %s; expected ack %s, delta %s [%s]",
+					trunc(string(after.Ack), 120), after.Panic, trunc(d, 300), trunc(refs[j.shape].ack, 120), trunc(refs[j.shape].delta, 300), sig)})
+		} else {
+			rep.Outcome("delivery-after-abort-identical")
+			rep.Distinct("gas:" + sig)
+		}
+	})
+	rep.Guard(rep.Outcomes["cut-off-by-gas(transaction aborts)"] >= 100 && rep.Outcomes["delivery-after-abort-identical"] >= 100, "gas-abort phase vacuous: %v", rep.Outcomes)
 }
